@@ -40,9 +40,17 @@ def hook_tail(interp):
 
 
 def interval(vc, name, pattern):
-    """P / N / S: finite interval on the positive side, the negative side, straddling zero; lower-case letters: the same
+    """P / N / S: finite interval on the positive side, the negative side, straddling zero; Z / O: (a, 0] and (0, b], the
+    two pieces of a straddling interval split exactly at zero (Z contains 0, so it counts as straddling when deciding whether
+    the rectangle contains the origin); lower-case letters: the same
     with an infinite end -- p = (a, +inf) with a > 0, n = (-inf, b) with b < 0, l = (-inf, b) with b > 0, r = (a, +inf) with a < 0"""
     a, b = vc.real(name + "_lo"), vc.real(name + "_hi")
+    if pattern == "Z":          # negative side, ending exactly at zero: (a, 0] -- the left piece of a split at zero
+        vc.assume(a < 0)
+        return a, 0.0
+    if pattern == "O":          # positive side, starting exactly at zero: (0, b] -- the right piece of a split at zero
+        vc.assume(b > 0)
+        return 0.0, b
     if pattern in "PNS":
         vc.assume({"P": And(0 < a, a < b), "N": And(a < b, b < 0), "S": And(a < 0, 0 < b)}[pattern])
         return a, b
@@ -77,7 +85,9 @@ class FastPaths(Lemma):
             withinf = ["".join(p) for p in itertools.product("PNSpnlr", repeat=2) if any(ch in "pnlr" for ch in p) and not all(ch in straddling for ch in p)]
         else:       # exactly one coordinate with an infinite end
             withinf = ["".join(p) for p in itertools.product("PNSpnlr", repeat=3) if sum(ch in "pnlr" for ch in p) == 1 and not all(ch in straddling for ch in p)]
-        self.cases = tuple(finite + withinf)
+        # rectangles with an end point exactly at zero (pieces of a split at zero); Z contains 0 like S does
+        atzero = ["".join(p) for p in itertools.product("PNSZO", repeat=d) if ("Z" in p or "O" in p) and any(ch in "PNO" for ch in p)]
+        self.cases = tuple(finite + withinf + atzero)
 
     def prove(self, vc, pattern):
         d = self.d
@@ -92,56 +102,111 @@ class FastPaths(Lemma):
     def replay(self, model, clause, pattern):
         from contracts import battery
         cm = battery.copula_model(self.d, "clayton")
-        f = lambda v, dflt: float(v["float"]) if isinstance(v, dict) else (float(v) if v is not None else dflt)
-        a, b = [], []
-        for k, p in enumerate(pattern):
-            if p in "pnlr":
-                lo, hi = {"p": (0.1 * (1 + 0.1 * k), np.inf), "n": (-np.inf, -0.1 * (1 + 0.1 * k)), "l": (-np.inf, 0.25), "r": (-0.2, np.inf)}[p]
-                a.append(lo)
-                b.append(hi)
-                continue
-            lo = f(model.get(f"x{k}_lo"), {"P": 0.1, "N": -0.4, "S": -0.2}[p] * (1 + 0.1 * k))
-            hi = f(model.get(f"x{k}_hi"), {"P": 0.3, "N": -0.1, "S": 0.25}[p] * (1 + 0.1 * k))
-            lo, hi = (max(min(lo, 2.0), -2.0), max(min(hi, 2.0), -2.0))
-            if not lo < hi or (p == "P" and lo <= 0) or (p == "N" and hi >= 0):
-                lo, hi = {"P": (0.1, 0.3), "N": (-0.4, -0.1), "S": (-0.2, 0.25)}[p]
-            a.append(lo)
-            b.append(hi)
+        a, b = concrete_rectangle(model, pattern)
         fast = getattr(cm, f"_mass_{self.d}d")(tuple(a), tuple(b))
         gen = cm._mass_nd(tuple(a), tuple(b))
         return (abs(fast - gen) > 1e-9 * max(1.0, abs(gen)), {"a": a, "b": b, "fast": float(fast), "general": float(gen)})
 
 
+def concrete_rectangle(model, pattern):
+    """the counter-model's rectangle as floats (end points the solver left free, or placed outside the pattern's side,
+    are replaced by defaults of the pattern)"""
+    f = lambda v, dflt: float(v["float"]) if isinstance(v, dict) else (float(v) if v is not None else dflt)
+    a, b = [], []
+    for k, p in enumerate(pattern):
+        if p in "pnlr":
+            lo, hi = {"p": (0.1 * (1 + 0.1 * k), np.inf), "n": (-np.inf, -0.1 * (1 + 0.1 * k)), "l": (-np.inf, 0.25), "r": (-0.2, np.inf)}[p]
+            a.append(lo)
+            b.append(hi)
+            continue
+        dflt = {"P": (0.1, 0.3), "N": (-0.4, -0.1), "S": (-0.2, 0.25), "Z": (-0.3, 0.0), "O": (0.0, 0.35)}[p]
+        lo = f(model.get(f"x{k}_lo"), dflt[0] * (1 + 0.1 * k))
+        hi = f(model.get(f"x{k}_hi"), dflt[1] * (1 + 0.1 * k))
+        lo, hi = (max(min(lo, 2.0), -2.0), max(min(hi, 2.0), -2.0))
+        if p == "Z":
+            hi = 0.0
+        if p == "O":
+            lo = 0.0
+        if not lo < hi or (p == "P" and lo <= 0) or (p == "N" and hi >= 0) or (p == "S" and not lo < 0 < hi):
+            lo, hi = dflt
+        a.append(lo)
+        b.append(hi)
+    return a, b
+
+
 class Additivity(Lemma):
-    """mass is additive when the rectangle is split along an axis at a point on the same side of zero as the interval
-    (general formula, d = 2, 3; the split coordinate positive or negative, the others any non-origin-containing pattern)"""
+    """mass is additive when the rectangle is split along an axis: at a point on the same side of zero as the interval
+    (split coordinate P or N), strictly inside a straddling interval on either side of zero, and EXACTLY AT ZERO (a straddling
+    coordinate cut into (a, 0] and (0, b]) -- general formula, d = 2, 3, the other coordinates any pattern that keeps the
+    origin outside the rectangle"""
     prop = "C12"
 
     def __init__(self, d):
         self.d = d
         self.name = f"property:additivity-{d}d"
-        self.cases = tuple("".join(p) for p in itertools.product("PNS", repeat=d) if p[0] in "PN")
+        same_side = ["".join(p) for p in itertools.product("PNS", repeat=d) if p[0] in "PN"]
+        # the split coordinate straddles zero: the rest must keep the origin out
+        at_zero = ["S" + "".join(p) + "@0" for p in itertools.product("PNS", repeat=d - 1) if any(ch in "PN" for ch in p)]
+        off_zero = ["S" + "".join(p) + "@" + side for p in itertools.product("PNS", repeat=d - 1) if any(ch in "PN" for ch in p) for side in "-+"]
+        self.cases = tuple(same_side + at_zero + off_zero)
 
-    def prove(self, vc, pattern):
+    def _split(self, vc, case, a0, b0):
+        pattern, _, where = case.partition("@")
+        if where == "0":
+            return pattern, 0.0
+        c = vc.real("split")
+        vc.assume(And(a0 < c, c < b0))
+        if where == "-":
+            vc.assume(c < 0)
+        elif where == "+":
+            vc.assume(c > 0)
+        return pattern, c
+
+    def prove(self, vc, case):
         d = self.d
         hook_tail(vc.interp)
         o = model_obj(vc, d)
+        pattern = case.partition("@")[0]
         ivs = [interval(vc, f"x{k}", pattern[k]) for k in range(d)]
         a, b = tuple(i[0] for i in ivs), tuple(i[1] for i in ivs)
-        c = vc.real("split")
-        vc.assume(And(a[0] < c, c < b[0]))
-        whole = vc.method(o, "_mass_nd", a, b)
-        left = vc.method(o, "_mass_nd", a, (c,) + b[1:])
-        right = vc.method(o, "_mass_nd", (c,) + a[1:], b)
-        vc.check(f"{self.name}[{pattern}]::split-along-the-first-axis", left + right == whole)
+        pattern, c = self._split(vc, case, a[0], b[0])
+        for fn in ("_mass_nd", f"_mass_{d}d"):
+            whole = vc.method(o, fn, a, b)
+            left = vc.method(o, fn, a, (c,) + b[1:])
+            right = vc.method(o, fn, (c,) + a[1:], b)
+            tag = "" if fn == "_mass_nd" else "[fast path]"
+            vc.check(f"{self.name}[{case}]::split-along-the-first-axis{tag}", left + right == whole)
+
+    def replay(self, model, clause, case):
+        from contracts import battery
+        cm = battery.copula_model(self.d, "clayton")
+        pattern, _, where = case.partition("@")
+        a, b = concrete_rectangle(model, pattern)
+        f = lambda v, dflt: float(v["float"]) if isinstance(v, dict) else (float(v) if v is not None else dflt)
+        if where == "0":
+            c = 0.0
+        else:
+            c = f(model.get("split"), None)
+            ok = c is not None and a[0] < c < b[0] and not (where == "-" and c >= 0) and not (where == "+" and c <= 0)
+            if not ok:
+                c = {"-": 0.5 * a[0], "+": 0.5 * b[0]}.get(where, 0.5 * (a[0] + b[0]))
+        fn = getattr(cm, f"_mass_{self.d}d" if "fast path" in clause else "_mass_nd")
+        whole = fn(tuple(a), tuple(b))
+        left = fn(tuple(a), (c,) + tuple(b[1:]))
+        right = fn((c,) + tuple(a[1:]), tuple(b))
+        return (abs(left + right - whole) > 1e-9 * max(1.0, abs(whole)),
+                {"a": a, "b": b, "split": c, "whole": float(whole), "left": float(left), "right": float(right)})
 
 
 class MarginalConsistency(Lemma):
     """the one-coordinate margin mass is the marginal Levy mass: mass((a,), (b,), indices=[i]) = nu_i((a, b]) on either
     side of zero, from the real marginal_tail_integral U_i(x) = sgn(x) nu_i(I(x)) and additivity of nu_i;
-    an interval with an END POINT EXACTLY AT ZERO is a separate clause (sign(0) = +1, I(0) = (0, inf))."""
+    (0, b] STARTING EXACTLY AT ZERO is a separate case (sign(0) = +1, I(0) = (0, inf)).  The interval (a, 0] is not a case:
+    with the other coordinates over the whole line its rectangle contains the origin, which the property excludes (for such
+    an interval _mass_1d returns minus the mass of the complement, the convention the straddling recursion builds on);
+    the pieces of a split at zero are covered, where the property places them, by the additivity lemmas (cases @0)."""
     prop = "C12"
-    cases = ("P", "N", "N-ending-at-zero", "P-starting-at-zero")
+    cases = ("P", "N", "P-starting-at-zero")
     name = "property:marginal-consistency"
 
     def prove(self, vc, case):
@@ -161,9 +226,6 @@ class MarginalConsistency(Lemma):
             a, b = interval(vc, "x", "P")
         elif case == "N":
             a, b = interval(vc, "x", "N")
-        elif case == "N-ending-at-zero":
-            a, b = vc.real("x_lo"), 0.0
-            vc.assume(a < 0)
         else:
             a, b = 0.0, vc.real("x_hi")
             vc.assume(b > 0)
@@ -177,7 +239,7 @@ class MarginalConsistency(Lemma):
         from contracts import battery
         cm = battery.copula_model(2, "clayton")
         nu = cm.models[0].levy_triplet.nu
-        a, b = {"P": (0.1, 0.4), "N": (-0.5, -0.1), "N-ending-at-zero": (-0.3, 0.0), "P-starting-at-zero": (0.0, 0.3)}[case]
+        a, b = {"P": (0.1, 0.4), "N": (-0.5, -0.1), "P-starting-at-zero": (0.0, 0.3)}[case]
         got = cm.mass((a,), (b,), [0])
         want = nu.integrate(a, b)
         return (abs(got - want) > 1e-9 * max(1.0, abs(want)), {"interval": [a, b], "mass": float(got), "marginal_levy_mass": float(want)})
